@@ -325,6 +325,38 @@ Example pca_current_orthogonal_on_witness :
   meq 4 4 (pca_matrix_fixed 2 (rotate 4 w_R4 w_X4)) (conj_R 4 w_R4 (pca_matrix_fixed 2 w_X4)).
 Proof. apply meq_by_compute. qc. Qed.
 
+(* LLTSA: before F25lltsa the left-hand side carried -(1/n) s s^T; at 51d934e it still carries
+   eps X X^T from the nullspace shift on the diagonal of the alignment matrix: in both cases the
+   pencil handed to the solver moves under a translation although the right-hand side does not.
+   Witness: three samples 0, 1, 3 on a line moved by 10, alignment matrix 0, eps = 1. *)
+Definition w_X3 : mat Qc := fun i _ => match i with 0%nat => 0 | 1%nat => 1 | _ => qz 3 end.
+Definition w_t10 : vec Qc := fun _ => qz 10.
+
+Theorem lltsa_pre_f25_pencil_moves :
+  exists n (W X : mat Qc) (t : vec Qc), zero_row_col_sums n W /\
+    lltsa_lhs_shipped n W (translate t X) 0%nat 0%nat <> lltsa_lhs_shipped n W X 0%nat 0%nat /\
+    lltsa_rhs n (translate t X) 0%nat 0%nat = lltsa_rhs n X 0%nat 0%nat.
+Proof.
+  exists 3%nat, w_W0, w_X3, w_t10. split; [|split].
+  - split; intros r _; qc.
+  - apply Qc_neq_by_compute. vm_compute. reflexivity.
+  - qc.
+Qed.
+
+Theorem lltsa_f25_shift_pencil_moves :
+  exists n (eps : Qc) (W X : mat Qc) (t : vec Qc), zero_row_col_sums n W /\
+    lltsa_lhs_f25 n eps W (translate t X) 0%nat 0%nat <> lltsa_lhs_f25 n eps W X 0%nat 0%nat /\
+    lltsa_rhs n (translate t X) 0%nat 0%nat = lltsa_rhs n X 0%nat 0%nat /\
+    lltsa_lhs_f42 n (shift_diag eps W) (translate t X) 0%nat 0%nat
+      = lltsa_lhs_f42 n (shift_diag eps W) X 0%nat 0%nat.
+Proof.
+  exists 3%nat, 1, w_W0, w_X3, w_t10. split; [|split; [|split]].
+  - split; intros r _; qc.
+  - apply Qc_neq_by_compute. vm_compute. reflexivity.
+  - qc.
+  - qc.
+Qed.
+
 (* ====================================================================== *)
 (* 4. the hypotheses of the positive theorems are satisfiable               *)
 (* ====================================================================== *)
